@@ -33,13 +33,15 @@ CHECKS = {
     note=TRUST_KANI + " Compositional stub: Ifs::classify_attr replaced by its specification in the state-machine obligations."),
  "C02": dict(
     engine="kani-real",
-    technique="bounded model checking (Kani/CBMC SAT) of the real loop-level kernel (Stack::loop_count, break/continue semantics) over symbolic frame stacks",
-    text=("For every stack of <= 5 frames (each of the 7 frame kinds symbolic) and every requested count, break/continue address "
-          "exactly the enclosing loops of the current execution context, capped at the request, and fail iff there is none. Which "
-          "commands run, their order and $? are decided inside Command::execute (subshells spawned with async closures: Kani ICE) and "
-          "are outside the claim."),
+    technique="bounded model checking (Kani/CBMC SAT) of the real command-search classification (classify) on a symbolic environment and of the loop-level kernel (Stack::loop_count, break/continue semantics) over symbolic frame stacks",
+    text=("Command search order: for names with and without a slash and every environment answer (built-in present or not, each of "
+          "the five built-in types, availability; function present or not) the real classify() picks special built-in > function > "
+          "other built-in > PATH, and an external utility without any lookup for a name with a slash. Loop levels: for every stack "
+          "of <= 4 frames (each of the 7 frame kinds symbolic) and every requested count, break/continue address exactly the "
+          "enclosing loops of the current execution context, capped at the request, and fail iff there is none. Which commands run, "
+          "their order and $? are decided inside Command::execute (subshells spawned with async closures: Kani ICE) - outside."),
     design_ref="DESIGN.md §0 and §6 C02",
-    note=TRUST_KANI),
+    note=TRUST_KANI + " CString::default (a C string literal, unsupported by Kani 0.68) is stubbed by an equivalent construction."),
  "C04": dict(
     engine="z3-relang (+ kani-real)", category="translation_validation",
     technique="translation validation by SMT: z3 regular-language equivalence (all string lengths) between the regex the real pattern compiler emits and the POSIX reading, over a bounded-exhaustive pattern family; counterexample strings replayed through the real matcher",
@@ -65,12 +67,15 @@ CHECKS = {
     note=TRUST_KANI),
  "C10": dict(
     engine="kani-real",
-    technique="bounded model checking (Kani/CBMC SAT) of the real errexit decision kernel (Env::errexit_is_applicable, apply_errexit) over symbolic frame stacks, option and exit status",
+    technique="bounded model checking (Kani/CBMC SAT) of the real errexit decision kernel (Env::errexit_is_applicable, apply_errexit) over symbolic frame stacks, option and exit status, and of the shell-error handlers of handle.rs",
     text=("For every stack of <= 4 frames (each frame kind symbolic), errexit on/off and every exit status: errexit applies iff the "
-          "option is on and no condition frame is anywhere on the stack, and then exits iff the status is non-zero. Where condition "
-          "frames are pushed, special vs regular built-ins and the EXIT trap count are command execution (async closures) - outside."),
+          "option is on and no condition frame is anywhere on the stack, and then exits iff the status is non-zero. The error "
+          "handlers return the documented outcome for every errexit/stack/status combination: expansion error -> interrupt with "
+          "status 2 (exit under applicable errexit), interrupted expansion keeps its status, syntax error -> interrupt with status "
+          "2, redirection error -> only $? = 2 and execution continues. Where condition frames are pushed, special vs regular "
+          "built-ins and the EXIT trap count are command execution (async closures) - outside."),
     design_ref="DESIGN.md §0 and §6 C10",
-    note=TRUST_KANI + " RandomState::new stubbed with fixed keys."),
+    note=TRUST_KANI + " RandomState::new stubbed with fixed keys; T3: diagnostic printing in handle.rs compiled out under cfg(kani)."),
  "C11": dict(
     engine="kani-real",
     technique="bounded model checking (Kani/CBMC SAT): inductive steps of the real trap-state operations from an arbitrary per-signal record satisfying the installed-disposition invariant, on a stub signal system; table-level steps on TrapSet",
@@ -109,7 +114,7 @@ NOT_APPLICABLE = {
 }
 
 # properties whose quick check has run green on the unchanged tree in this sandbox
-ENABLED = ["C03", "C04", "C10", "C11"]
+ENABLED = ["C01", "C02", "C03", "C04", "C07", "C10", "C11", "C12"]
 
 
 def main():
